@@ -328,14 +328,16 @@ class Capabilities(dict[int, Capability]):
         while data:
             key, value, data = decoder('parameter', data)
 
-            # Parameters must only be sent once.
+            # RFC 4271 6.2: an optional parameter which is not recognised is answered with
+            # Unsupported Optional Parameter (subcode 4).  The authentication parameter was
+            # deprecated by RFC 4271 together with subcode 5, so it is just another one.
             if key == Parameter.AUTHENTIFICATION_INFORMATION:
-                raise Notify(2, 5)
+                raise Notify(2, 4, 'Authentication Information OPEN parameter is not supported')
 
             if key == Parameter.CAPABILITIES:
                 while value:
                     capability, capv, value = _key_values('capability', value)
                     capabilities[capability] = Capability.unpack(CapabilityCode(capability), capabilities, capv)
             else:
-                raise Notify(2, 0, 'Unknow OPEN parameter {}'.format(hex(key)))
+                raise Notify(2, 4, 'Unknow OPEN parameter {}'.format(hex(key)))
         return capabilities
